@@ -129,6 +129,15 @@ def main():
             fail(st, "return")
         if not order:
             fail(fn, "no order")
+        for name, want in (("get_gridspecs", ["variable_info = get_variable_info(model)", "raw_variables = model.states | model.choices",
+                                                "order = variable_info.index.tolist()", "return {k: raw_variables[k] for k in order}"]),
+                           ("get_grids", ["variable_info = get_variable_info(model)", "gridspecs = get_gridspecs(model)",
+                                            "grids = {name: spec.to_jax() for name, spec in gridspecs.items()}",
+                                            "order = variable_info.index.tolist()", "return {k: grids[k] for k in order}"])):
+            g = find_func(tree, name)
+            got = [unp(x) for x in g.body if not is_docstring(x)]
+            if [a.arg for a in g.args.args] != ["model"] or got != want:
+                fail(g, f"{name}: " + " | ".join(x[:70] for x in got))
         fields = " ".join(f"(c_{c} var)" for c in COLS)
         order_txt = "\n             ++ ".join(order)
         nl = "\n"
@@ -153,6 +162,30 @@ Definition get_variable_info (states choices : list (string * bool)) : option (l
   let info := map (fun var => mkVarinfo (fst var) {fields}) variables in
   let order := ({order_txt})%list in
   if negb (set_eqb order (map vname info)) then None else Some (map (loc info) order).
+
+(* {{k: d[k] for k in order}}; None: KeyError *)
+Definition reorder {{G}} (d : list (string * G)) (order : list string) : option (list (string * G)) :=
+  omap (fun k => match assoc k d with Some g => Some (k, g) | None => None end) order.
+
+(* get_gridspecs(model) and get_grids(model): the grid specifications / the grids as arrays, in the order of variable_info;
+   `is_cont spec` is isinstance(spec, ContinuousGrid), `to_jax spec` is spec.to_jax() *)
+Definition get_gridspecs {{G}} (is_cont : G -> bool) (states choices : list (string * G)) : option (list (string * G)) :=
+  match get_variable_info (map (fun sg => (fst sg, is_cont (snd sg))) states) (map (fun sg => (fst sg, is_cont (snd sg))) choices) with
+  | None => None
+  | Some variable_info =>
+      let raw_variables := fold_left (fun d kv => dict_set d (fst kv) (snd kv)) choices (fold_left (fun d kv => dict_set d (fst kv) (snd kv)) states []) in
+      let order := map vname variable_info in
+      reorder raw_variables order
+  end.
+Definition get_grids {{G A}} (is_cont : G -> bool) (to_jax : G -> A) (states choices : list (string * G)) : option (list (string * A)) :=
+  match get_variable_info (map (fun sg => (fst sg, is_cont (snd sg))) states) (map (fun sg => (fst sg, is_cont (snd sg))) choices),
+        get_gridspecs is_cont states choices with
+  | Some variable_info, Some gridspecs =>
+      let grids := map (fun ns => (fst ns, to_jax (snd ns))) gridspecs in
+      let order := map vname variable_info in
+      reorder grids order
+  | _, _ => None
+  end.
 End VariableInfo.
 """
         print("VariableInfo.v: get_variable_info")
